@@ -32,8 +32,10 @@ struct Rec
     long long a = 0, b = 0, c = 0, d = 0;
     std::string s;
 };
-constexpr size_t kMaxRecs = 4000000;
-std::vector<Rec> g_recs(kMaxRecs);
+// sized in main() from the history's parameters: constructing millions of empty records costs seconds under ThreadSanitizer on a
+// loaded machine, before the first observation could be made
+size_t kMaxRecs = 0;
+std::vector<Rec> g_recs;
 std::atomic<size_t> g_nrec { 0 };
 
 void rec(char kind, long long a, long long b = 0, long long c = 0, long long d = 0, std::string s = std::string())
@@ -160,6 +162,12 @@ void dump(const char *path)
 {
     FILE *f = fopen(path, "w");
     if (!f) exit(3);
+    if (g_nrec.load() > kMaxRecs) {
+        // never silently: a truncated log would read as lost messages
+        fprintf(stderr, "drv_conc: recorder overflow (%zu observations, room for %zu)\n", g_nrec.load(), kMaxRecs);
+        exit(5);
+    }
+    if (getenv("VERIF_REC_STATS")) fprintf(stderr, "recs=%zu cap=%zu\n", g_nrec.load(), kMaxRecs);
     size_t n = std::min(g_nrec.load(), kMaxRecs);
     for (size_t i = 0; i < n; ++i) {
         const Rec &r = g_recs[i];
@@ -640,6 +648,11 @@ int main(int argc, char **argv)
     const std::string mode = argv[1];
     // heartbeat for the runner's progress-based hang detection: number of observations recorded so far
     std::string hb = std::string(argv[2]) + ".hb";
+    {
+        const size_t producers = argc > 4 ? size_t(atol(argv[4])) : 64, msgs = argc > 5 ? size_t(atol(argv[5])) : 1000;
+        kMaxRecs = std::min<size_t>(4000000, producers * msgs * 40 + 300000);
+        g_recs.resize(kMaxRecs);
+    }
     std::thread([hb]() {
         for (;;) {
             if (FILE *f = fopen((hb + ".tmp").c_str(), "w")) {
